@@ -2,3 +2,17 @@
 //! records traces for TLC trace validation. See /verif/DESIGN.md.
 pub mod gen;
 pub mod mt;
+// group B (C04 / C05 / C06)
+pub mod corrupt;
+pub mod faultio;
+pub mod hostile;
+pub mod strict;
+pub mod refb;
+pub mod forge;
+pub mod cont;
+// group D (C07 / C11 / C17 / C19)
+pub mod tio;
+pub mod filters;
+pub mod partition;
+pub mod options;
+pub mod mem;
